@@ -289,6 +289,11 @@ impl Run {
         let _ = std::fs::create_dir_all(format!("{}/evidence", self.verif_dir));
         let epath = format!("{}/evidence/{}.json", self.verif_dir, self.id);
         std::fs::write(&epath, serde_json::to_string_pretty(&ev).unwrap()).expect("machinery: cannot write evidence");
+        if self.tier == Tier::Thorough {
+            // keep the last thorough run's evidence next to the (quick) evidence the harness regenerates
+            let _ = std::fs::create_dir_all(format!("{}/evidence_thorough", self.verif_dir));
+            let _ = std::fs::write(format!("{}/evidence_thorough/{}.json", self.verif_dir, self.id), serde_json::to_string_pretty(&ev).unwrap());
+        }
 
         for (sig, (what, n, _)) in hits.iter() {
             println!("KNOWN-FINDING: property={} {} [{} occurrence(s); signature {}]", self.id, what, n, sig);
